@@ -32,6 +32,19 @@ AXIOM_ALLOW = {
     "eq_rect_eq",
 }
 
+# coqchk -o lists the axioms of every LOADED library, used by a theorem or not.  The standard library's primitive 63-bit integers
+# (Primitive declarations and their specification axioms in Coq.Numbers.Cyclic.Int63) are loaded by the fingerprint functions
+# that compress model outputs for the ties (UF/UfBase.v, Byods/TrRelFp.v ...); no theorem depends on them (Print Assumptions of
+# every property theorem is checked separately and must be closed / within AXIOM_ALLOW).  They are named in the trusted base.
+AXIOM_ALLOW_LOADED_PREFIXES = ("Coq.Numbers.Cyclic.Int63.",)
+
+
+def axiom_allowed(a, loaded_only=False):
+    if a in AXIOM_ALLOW or a.split(".")[-1] in AXIOM_ALLOW:
+        return True
+    return loaded_only and a.startswith(AXIOM_ALLOW_LOADED_PREFIXES)
+
+
 FORBIDDEN = re.compile(
     r"\b(Admitted|admit|Axiom|Axioms|Parameter|Parameters|Conjecture|Conjectures|Abort All|give_up)\b"
     r"|Unset\s+Guard|Unset\s+Positivity|Unset\s+Universe|bypass_check|type-in-type|impredicative-set"
@@ -529,4 +542,5 @@ def repo_state():
 KERNEL_TB = [
     "Coq 8.16.1 kernel + its VM (vm_compute); no native_compute; no extraction",
     "coqc full .vo build via coq_makefile/make; Print Assumptions of every property theorem compared with the allow-list",
+    "the standard library's primitive 63-bit integers (Coq.Numbers.Cyclic.Int63: Primitive declarations + their specification axioms) are LOADED by fingerprint functions that compress model outputs for some ties (UF/UfBase.v, Byods/*Fp.v, evaluated by the VM); no theorem depends on them, coqchk -o lists them as axioms of loaded libraries",
 ]
